@@ -1,9 +1,12 @@
 #!/usr/bin/env python3
 """Confirm a seeded change and run the checks against it.
-  seedtest.py <seeded-id> [tier]
+  seedtest.py <seeded-id> [tier] [--inplace]
 1. in a scratch worktree (outside /repo and /verif): the patch applies, the pinned suite still passes,
    the demonstration fails with the patch and passes without it;
-2. the patch is applied to /repo, ./check <property> is run, and the patch is undone straight afterwards.
+2. the check of the property is run against the patched tree: by default against the scratch worktree
+   (VERIF_REPO=<worktree>, so several seeded changes can be tried at once and /repo is never touched);
+   with --inplace the patch is applied to /repo itself and undone straight afterwards.
+Evidence and replay files of these runs go to a scratch directory (VERIF_OUT), never to /verif/evidence.
 Results are recorded in seeded/<id>/meta.json."""
 import json
 import os
@@ -15,19 +18,22 @@ import sys
 VERIF = os.path.dirname(os.path.dirname(os.path.abspath(__file__)))
 
 
-def sh(cmd, cwd=None, timeout=3000):
-    p = subprocess.run(cmd, shell=True, cwd=cwd, capture_output=True, text=True, timeout=timeout)
+def sh(cmd, cwd=None, timeout=6000, env=None):
+    p = subprocess.run(cmd, shell=True, cwd=cwd, capture_output=True, text=True, timeout=timeout, env=env)
     return p.returncode, p.stdout + p.stderr
 
 
 def main():
-    sid = sys.argv[1]
-    tier = sys.argv[2] if len(sys.argv) > 2 else 'quick'
-    d = os.path.join(VERIF, 'seeded', sid)
+    args = [a for a in sys.argv[1:] if not a.startswith('--')]
+    inplace = '--inplace' in sys.argv
+    sid = args[0]
+    tier = args[1] if len(args) > 1 else 'quick'
+    d = os.path.join(os.environ.get('SEEDED_DIR', os.path.join(VERIF, 'seeded')), sid)
     meta = json.load(open(os.path.join(d, 'meta.json')))
     prop = meta['property']
     patch = os.path.join(d, 'patch.diff')
     wt = '/tmp/seedwt-%d' % os.getpid()
+    out_dir = '/tmp/seedout-%d' % os.getpid()
     res = {}
     try:
         rc, out = sh('git -C /repo worktree add -q --detach %s HEAD' % wt)
@@ -45,22 +51,31 @@ def main():
         sh('git checkout -- flamapy', cwd=wt)
         rc, out = sh('/venv/bin/python -m pytest -q -p no:cacheprovider seeddemo/demo_test.py', cwd=wt)
         res['demo_passes_without_patch'] = rc == 0
-    finally:
-        sh('git -C /repo worktree remove --force %s' % wt)
-    # against the checks
-    rc, out = sh('git -C /repo status --porcelain')
-    assert out.strip() == '', '/repo is not clean: ' + out
-    try:
-        rc, out = sh('git -C /repo apply %s' % patch)
-        assert rc == 0, out
-        rc, out = sh('./check %s --tier %s' % (prop, tier), cwd=VERIF)
-        clauses = sorted(set(c for l in out.splitlines() if l.startswith('VIOLATION') for c in
+        shutil.rmtree(os.path.join(wt, 'seeddemo'))
+        env = dict(os.environ, VERIF_OUT=out_dir)
+        if inplace:
+            rc, out = sh('git -C /repo status --porcelain')
+            assert out.strip() == '', '/repo is not clean: ' + out
+            try:
+                rc, out = sh('git -C /repo apply %s' % patch)
+                assert rc == 0, out
+                rc, out = sh('./check %s --tier %s' % (prop, tier), cwd=VERIF, env=env)
+            finally:
+                sh('git -C /repo checkout -- .')
+        else:
+            rc, out = sh('git apply %s' % patch, cwd=wt)
+            assert rc == 0, out
+            env['VERIF_REPO'] = wt
+            rc, out = sh('./check %s --tier %s' % (prop, tier), cwd=VERIF, env=env)
+        clauses = sorted(set(c for l in out.splitlines() if l.startswith('VIOLATION') and 'clauses=' in l for c in
                              re.search(r'clauses=(\S+)', l).group(1).split(',')))
         res['check'] = {'tier': tier, 'cmd': './check %s --tier %s' % (prop, tier), 'exit': rc, 'detected': rc == 1,
-                        'clauses': clauses[:12]}
+                        'clauses': clauses[:12], 'against': '/repo (patched in place)' if inplace else 'scratch worktree (VERIF_REPO)'}
+        if rc not in (0, 1):
+            res['check']['tail'] = out[-1500:]
     finally:
-        sh('git -C /repo checkout -- .')
-    shutil.rmtree(os.path.join(VERIF, 'replays', prop), ignore_errors=True)
+        sh('git -C /repo worktree remove --force %s' % wt)
+        shutil.rmtree(out_dir, ignore_errors=True)
     meta['confirmed'] = {k: v for k, v in res.items() if k != 'check'}
     meta.setdefault('checks', {})[tier] = res['check']
     json.dump(meta, open(os.path.join(d, 'meta.json'), 'w'), indent=1)
